@@ -431,21 +431,23 @@ Definition vine_of_dict (p : pv) : result vine :=
   | _ => Err TypeErr
   end.
 
-(* Multivariate.from_dict(params) on a vine dict: get_instance(params['type']) instantiates the class
-   WITHOUT arguments before its from_dict is reached *)
+(* Multivariate.from_dict(params) on a vine dict: the class named by params['type'] is imported (NOT instantiated: since the
+   F38 fix; before, get_instance(params['type']) called VineCopula() without its required vine_type and raised TypeError)
+   and its from_dict classmethod is applied to the whole dict *)
 Definition multivariate_from_dict_vine (p : pv) : result vine :=
   match p with
   | PDict d =>
       t <- pget "type" d ;;
       match t with
-      | PJ (JStr n) => if String.eqb n vine_fqn then (_ <- new_vine [] [] ;; vine_of_dict p) else Err Unmodelled
+      | PJ (JStr n) => if String.eqb n vine_fqn then vine_of_dict p else Err Unmodelled
       | _ => Err AttributeErr
       end
   | _ => Err TypeErr
   end.
 
-Theorem dispatch_multivariate_vine_refuted : forall v d,
-  vine_to_dict v = Ok d -> multivariate_from_dict_vine d = Err TypeErr.
+(* the generic entry point dispatches every dict written by VineCopula.to_dict to VineCopula.from_dict *)
+Theorem dispatch_multivariate_vine : forall v d,
+  vine_to_dict v = Ok d -> multivariate_from_dict_vine d = vine_of_dict d.
 Proof.
   intros v d H. unfold vine_to_dict in H. destruct (v_body v) as [b|].
   - unfold bind in H. destruct (all_ok (map tree_to_dict (vb_trees b))); [|discriminate].
@@ -537,7 +539,7 @@ Definition edge_reads : list string :=
 
 Example example_vine_roundtrip : wf_vine example_vine = true /\
   exists d v', vine_to_dict example_vine = Ok d /\ vine_of_dict d = Ok v' /\ v_trees v' = v_trees example_vine /\
-               vine_to_dict v' = Ok d /\ pv_json_safe d = false /\ multivariate_from_dict_vine d = Err TypeErr.
+               vine_to_dict v' = Ok d /\ pv_json_safe d = false /\ multivariate_from_dict_vine d = Ok v'.
 Proof.
   split; [reflexivity|]. eexists; eexists. split; [vm_compute; reflexivity|]. split; [vm_compute; reflexivity|].
   repeat split; vm_compute; reflexivity.
@@ -546,4 +548,4 @@ Qed.
 Print Assumptions edge_roundtrip.
 Print Assumptions vine_relink.
 Print Assumptions vine_to_dict_roundtrip.
-Print Assumptions dispatch_multivariate_vine_refuted.
+Print Assumptions dispatch_multivariate_vine.
